@@ -18,6 +18,44 @@ class Bad(Exception):
     pass
 
 
+class Unknown(Bad):
+    """a form the construction evaluator does not model (UNDECIDED), as opposed to a visibly wrong construction (Bad)"""
+    pass
+
+
+_G = [None]      # the grammar of the current run (for private construction helpers)
+
+
+def _helper_construct(p, args_seq):
+    """a private function that only builds a node from its parameters: evaluate its body on the arguments' chunk sequences"""
+    g = _G[0]
+    f = g.fns.get(p) if g is not None else None
+    if f is None or f.kind != 'other' or not f.item.get('body'):
+        return None
+    ps = []
+    for q in f.item['sig']['params']:
+        if q.get('k') != 'typed' or q['pat'].get('k') != 'ident':
+            return None
+        ps.append(q['pat']['n'])
+    if len(ps) != len(args_seq):
+        return None
+    env = dict(zip(ps, args_seq))
+    stmts = f.item['body']['stmts']
+    for st in stmts[:-1]:
+        if st['k'] == 'let' and 'init' in st and st['pat'].get('k') == 'ident':
+            sq_ = chunk_seq(st['init'], env, set())
+            for n in sx.walk(st['init']):
+                if n.get('k') == 'path' and n['p'] in env:
+                    env[n['p']] = None
+            env[st['pat']['n']] = sq_
+        else:
+            return None
+    last = stmts[-1]
+    if last['k'] != 'expr' or last.get('semi'):
+        return None
+    return chunk_seq(last['e'], env, set())
+
+
 def is_ctor_path(p):
     last = p.split('::')[-1]
     return last[:1].isupper()
@@ -39,7 +77,7 @@ def chunk_seq(e, env, span_names):
             return []
         if is_ctor_path(n) and '::' in n:
             return []  # unit-like variant
-        raise Bad('foreign value `%s` in node construction' % n)
+        raise Unknown('foreign value `%s` in node construction' % n)
     if k == 'tuple':
         out = []
         for x in e['e']:
@@ -59,14 +97,22 @@ def chunk_seq(e, env, span_names):
             for a in e['args']:
                 out += chunk_seq(a, env, span_names)
             return out
-        raise Bad('call of `%s` in node construction' % p)
+        try:
+            hs = _helper_construct(p, [chunk_seq(a, env, span_names) for a in e['args']])
+        except Unknown:
+            hs = None
+        if hs is not None:
+            return hs
+        raise Unknown('call of `%s` in node construction' % p)
     if k == 'macro' and e['p'] == 'vec' and not e.get('args') and e['tokens'].strip() == '':
         return []
     if k == 'mcall':
-        raise Bad('method call `.%s()` in node construction' % e['m'])
+        if e['m'] in ('rev', 'reverse', 'pop', 'swap_remove', 'sort'):
+            raise Bad('method call `.%s()` in node construction: the order of consumed outputs is changed' % e['m'])
+        raise Unknown('method call `.%s()` in node construction' % e['m'])
     if k == 'block' and len(e['stmts']) == 1 and e['stmts'][0]['k'] == 'expr' and not e['stmts'][0].get('semi'):
         return chunk_seq(e['stmts'][0]['e'], env, span_names)
-    raise Bad('non-construction expression `%s`' % sx.render(e)[:60])
+    raise Unknown('non-construction expression `%s`' % sx.render(e)[:60])
 
 
 def consuming(ir, g, seen=None):
@@ -197,6 +243,9 @@ def check_map_closure(res, g, fn, m, tag, under_look=False):
                                            'consuming': consuming(m['p'], g), 'under_lookahead': under_look})
     try:
         seq = chunk_seq(body, env, set())
+    except Unknown as b:
+        res.undecided('%s:%s:map-closure:%s' % (g.crate, fn.name, tag), where, '%s: map closure: %s' % (fn.name, b))
+        return
     except Bad as b:
         res.fail('%s:%s:map-closure:%s' % (g.crate, fn.name, tag), where, '%s: map closure: %s' % (fn.name, b))
         return
@@ -278,6 +327,7 @@ def check_list_helper(res, g, fn):
 
 def run(ctx):
     g = ctx.grammar
+    _G[0] = g
     res = RuleResult('G1', 'linear span threading and faithful node construction')
     res3 = RuleResult('G3', 'dropped output only from non-consuming parsers')
     res.g3 = res3
@@ -348,11 +398,46 @@ def run(ctx):
                     # let x = CONSTRUCTION;
                     if s['k'] == 'let' and 'init' in s and s['pat'].get('k') == 'ident' and 'else' not in s:
                         try:
+                            init_ = s['init']
+                            folded = None
+                            if init_.get('k') == 'mcall' and init_['m'] == 'fold' and len(init_['args']) == 2 and init_['args'][1].get('k') == 'closure':
+                                root_ = init_['recv']
+                                while root_.get('k') == 'mcall' and root_['m'] in ('into_iter', 'iter', 'drain') :
+                                    root_ = root_['recv']
+                                cl_ = init_['args'][1]
+                                if sx.is_path(root_) and root_['p'] in env and env[root_['p']] is not None and len(cl_['params']) == 2:
+                                    v_ = root_['p']
+                                    acc0 = chunk_seq(init_['args'][0], env, span_names)
+                                    accn = sx.pat_idents(cl_['params'][0])
+                                    ids_ = [i_ for i_ in sx.pat_idents(cl_['params'][1])]
+                                    if len(accn) == 1:
+                                        lenv_ = {accn[0]: [('A', 0)]}
+                                        for j_, idn_ in enumerate(ids_):
+                                            lenv_[idn_] = [('L', j_)]
+                                        got = chunk_seq(cl_['body'], lenv_, span_names)
+                                        want_ = [('A', 0)] + [('L', j_) for j_ in range(len(ids_))]
+                                        if got != want_:
+                                            raise Bad('fold builds its result from (accumulator, %s) as %s; expected accumulator first, then the element\'s parts once each in order' % (ids_, got))
+                                        folded = acc0 + list(env[v_])
+                                        for n in sx.walk(init_['args'][0]):
+                                            if n.get('k') == 'path' and n['p'] in env:
+                                                env[n['p']] = None
+                                        env[v_] = None
+                                        res.counts['fold_loops'] = res.counts.get('fold_loops', 0) + 1
+                            if folded is not None:
+                                env[s['pat']['n']] = folded
+                                continue
                             seq = chunk_seq(s['init'], env, span_names)
                             for n in sx.walk(s['init']):
                                 if n.get('k') == 'path' and n['p'] in env:
                                     env[n['p']] = None
                             env[s['pat']['n']] = seq
+                            continue
+                        except Unknown as b:
+                            res.undecided('%s:%s:stmt:%s' % (g.crate, fn.name, s['pat']['n']),
+                                          '%s/%s:%s' % (g.crate, fn.file, s.get('l')), '%s: %s' % (fn.name, b))
+                            ok = False
+                            unm = True
                             continue
                         except Bad as b:
                             res.fail('%s:%s:stmt:%s' % (g.crate, fn.name, s['pat']['n']),
@@ -384,7 +469,7 @@ def run(ctx):
                                     lenv[tgt] = sq
                                     assigned = tgt
                                 else:
-                                    raise Bad('statement `%s` in a fold loop' % sx.render(bs)[:60])
+                                    raise Unknown('statement `%s` in a fold loop' % sx.render(bs)[:60])
                             if assigned is None or assigned not in env or env[assigned] is None:
                                 raise Bad('fold loop does not update an accumulator bound before the loop')
                             want = list(env[assigned]) + [('L', j) for j in range(len(ids))]
@@ -394,6 +479,11 @@ def run(ctx):
                             env[assigned] = list(env[assigned]) + list(env[v])
                             env[v] = None
                             res.counts['fold_loops'] = res.counts.get('fold_loops', 0) + 1
+                            continue
+                        except Unknown as b:
+                            res.undecided('%s:%s:fold-loop' % (g.crate, fn.name), '%s/%s:%s' % (g.crate, fn.file, s.get('l')), '%s: %s' % (fn.name, b))
+                            ok = False
+                            unm = True
                             continue
                         except Bad as b:
                             res.fail('%s:%s:fold-loop' % (g.crate, fn.name), '%s/%s:%s' % (g.crate, fn.file, s.get('l')),
@@ -421,13 +511,15 @@ def run(ctx):
                                                                    (' (dropped: #%s)' % missing) if missing else ''),
                                  {'bound': [sx.render(s[2]) for s in fn.stmts if s[0] == 'bind'], 'result': sx.render(t[2])[:200]})
                 except Bad as b:
-                    if unm:
-                        res.undecided('%s:%s:construct' % (g.crate, fn.name), where, '%s: %s (after a statement G1 does not model)' % (fn.name, b))
+                    if unm or isinstance(b, Unknown):
+                        res.undecided('%s:%s:construct' % (g.crate, fn.name), where, '%s: %s%s' % (fn.name, b, ' (after a statement G1 does not model)' if unm else ''))
                     else:
                         res.fail('%s:%s:construct' % (g.crate, fn.name), where, '%s: %s' % (fn.name, b))
                 res.inst('%s:body' % fn.name, {'fn': fn.name, 'outputs': nchunk, 'result': sx.render(t[2])[:100]} if nchunk >= 4 else None)
             elif t[0] == 'apply':
-                if not sx.is_path(t[2], cur):
+                if fn.kind == 'helper' and t[2] is None:
+                    pass        # helper written as a combinator expression: nothing is applied inside it
+                elif not sx.is_path(t[2], cur):
                     res.fail('%s:%s:thread:tail' % (g.crate, fn.name), where,
                              '%s: final parser applied to `%s`, not to `%s`' % (fn.name, sx.render(t[2]), cur))
                 if nchunk:
